@@ -188,6 +188,9 @@ pub struct Case {
     /// studied call is a no-op state-wise: it must still need the (now current) holder's authorisation
     #[serde(default)]
     pub pre_applied: bool,
+    /// the contract was upgraded (by its owner) and not yet migrated: the migration window is open
+    #[serde(default)]
+    pub window_open: bool,
 }
 
 #[derive(Clone)]
@@ -369,6 +372,17 @@ fn build(case: &Case) -> (Sys<'static>, RoleModel) {
             m.holder.insert(role, to);
         }
     }
+    if case.window_open && !matches!(case.ep, Ep::GwMigrate | Ep::GasMigrate | Ep::OpsMigrate | Ep::ItsMigrate | Ep::TokMigrate) {
+        s.env.mock_all_auths();
+        let empty = BytesN::from_array(&s.env, &empty_wasm_hash());
+        match case.ep.role() {
+            Role::GwOwner | Role::GwOperator => s.gw.upgrade(&empty),
+            Role::GasOwner | Role::GasCollector => s.gas.upgrade(&empty),
+            Role::OpsOwner => s.ops.upgrade(&empty),
+            Role::ItsOwner => s.its.upgrade(&empty),
+            Role::TokenOwner => s.token.upgrade(&empty),
+        }
+    }
     if case.pre_applied && case.ep.idempotent() {
         s.env.mock_all_auths();
         if let Some(role) = case.ep.is_transfer() {
@@ -392,7 +406,7 @@ impl Property for C06 {
         "C06"
     }
     fn rule(&self) -> &'static str {
-        "every case = (role-transfer history over the 6 transferable roles of the 5 role-bearing contracts, one of 29 administrative entry points, one of 7 principal classes: current holder, former holder, holder of another role, beneficiary named in the arguments, stranger, nobody, holder-authorised-other-arguments). The full 29x7 matrix with an empty history is enumerated in every run (fixed cases); for the idempotent entry points (role transfers, add/remove minter, upgrade) also the variant in which the same change was already applied once; proptest adds histories of 1-5 transfers (incl. to self, to the other role's holder, and back). Engine: the authorisation trees the call needs are recorded in a twin world with all auths mocked, then replayed in a fresh identical world in which exactly one principal signs the tree recorded for the role holder. Oracle: role model: success iff that principal is the current holder (and signed these exact arguments); refusals must leave the ledger snapshot identical; after an accepted transfer the role query names exactly the successor. non-trivial = principal is not simply the initial holder (principal class != Holder, or history non-empty); distinct by Debug hash"
+        "every case = (role-transfer history over the 6 transferable roles of the 5 role-bearing contracts, one of 29 administrative entry points, one of 7 principal classes: current holder, former holder, holder of another role, beneficiary named in the arguments, stranger, nobody, holder-authorised-other-arguments). The full 29x7 matrix with an empty history is enumerated in every run (fixed cases), once in the ordinary state and once with the contract's migration window open (upgraded, not yet migrated); for the idempotent entry points (role transfers, add/remove minter, upgrade) also the variant in which the same change was already applied once; proptest adds histories of 1-5 transfers (incl. to self, to the other role's holder, and back). Engine: the authorisation trees the call needs are recorded in a twin world with all auths mocked, then replayed in a fresh identical world in which exactly one principal signs the tree recorded for the role holder. Oracle: role model: success iff that principal is the current holder (and signed these exact arguments); refusals must leave the ledger snapshot identical; after an accepted transfer the role query names exactly the successor. non-trivial = principal is not simply the initial holder (principal class != Holder, or history non-empty); distinct by Debug hash"
     }
     fn fixed_is_exhaustive(&self) -> Option<&'static str> {
         Some("entry-point x principal matrix (29 x 7) with empty role history enumerated completely; histories sampled")
@@ -406,8 +420,9 @@ impl Property for C06 {
             prop::sample::select(EPS.to_vec()),
             prop::sample::select(PRINCIPALS.to_vec()),
             prop_oneof![3 => Just(false), 1 => Just(true)],
+            prop_oneof![3 => Just(false), 1 => Just(true)],
         )
-            .prop_map(|(mut history, ep, principal, pre_applied)| {
+            .prop_map(|(mut history, ep, principal, pre_applied, window_open)| {
                 // bias the history toward the studied role
                 let r = ROLES.iter().position(|r| *r == ep.role()).unwrap() as u8;
                 for (i, x) in history.iter_mut().enumerate() {
@@ -415,7 +430,7 @@ impl Property for C06 {
                         x.role = r;
                     }
                 }
-                Case { history, ep, principal, pre_applied }
+                Case { history, ep, principal, pre_applied, window_open }
             })
             .boxed()
     }
@@ -423,9 +438,10 @@ impl Property for C06 {
         let mut v = vec![];
         for ep in EPS {
             for p in PRINCIPALS {
-                v.push(Case { history: vec![], ep, principal: p, pre_applied: false });
+                v.push(Case { history: vec![], ep, principal: p, pre_applied: false, window_open: false });
+                v.push(Case { history: vec![], ep, principal: p, pre_applied: false, window_open: true });
                 if ep.idempotent() {
-                    v.push(Case { history: vec![], ep, principal: p, pre_applied: true });
+                    v.push(Case { history: vec![], ep, principal: p, pre_applied: true, window_open: false });
                 }
             }
         }
@@ -485,6 +501,10 @@ impl Property for C06 {
         }
         if !case.history.is_empty() {
             cx.label("with_role_history");
+        }
+        if case.window_open {
+            cx.label("migration_window_open");
+            cx.nontrivial();
         }
         if case.pre_applied && ep.idempotent() {
             cx.label("same_change_already_applied");
